@@ -721,7 +721,7 @@ func init() {
 			v.Nontrivial = true
 			return v
 		},
-		Rule:       "full grid: 1..3 start events x {independent chains, chains merging in a parallel join, one chain without task} x {StartAll, StartWith one by one with the earlier chain run to its end, the first two start events triggered at the same time from two goroutines and the rest one by one} x {1,2,4 concurrent waiters} x {attached before start, mid-run, after completion} x {plain, one / two already-expired waits first} x start-up hook delay probability {0,0.5,1}; waiters and cease-flow trace checked against the reference at every quiescent point; cancelled instances (the instance's own context cancelled while task requests are unanswered, at rest or mid-run, with waiters attached before, after an expired wait and after the cancellation): no waiter may return true, none stays blocked, no cease-flow trace; every cell is non-trivial (has waiters and >=1 quiescent comparison); distinct = descriptor hash",
+		Rule:       "full grid: 1..3 start events x {independent chains, chains merging in a parallel join, one chain without task} x {StartAll, StartWith one by one with the earlier chain run to its end, the first two start events triggered at the same time from two goroutines and the rest one by one} x {1,2,4 concurrent waiters} x {attached before start, mid-run, after completion} x {plain, one / two already-expired waits first} x start-up hook delay probability {0,0.5,1}; waiters and cease-flow trace checked against the reference at every quiescent point; cancelled instances (the instance's own context cancelled while task requests are unanswered, at rest or mid-run, with waiters attached before, after an expired wait and after the cancellation): no waiter may return true, none stays blocked, no cease-flow trace; every cell is non-trivial (has waiters and >=1 quiescent comparison); distinct = descriptor hash; shape badcond (the only flow out of the first start event carries a condition that cannot be evaluated)",
 		Exhaustive: func(string) bool { return true },
 		Assumptions: []string{"'within bounded time' is restated as 'by the next quiescent point'", "context given to WithContext and StartAll/StartWith is the same"},
 	})
